@@ -28,19 +28,16 @@ warnings.simplefilter("ignore")
 MODULE = "ColaVerif.Properties.C13"
 EPS = K.EPS
 
-# --------------------------------------------------------------------------------------------
-# PROVISIONAL: clauses treated as known findings until the maintainer decides (repair in /repo or record in
-# /verif/known_findings.json); remove them here afterwards.
-#   keepLastRow   : defect (b) — gmres drops the last row of H: the iterate is the Galerkin/FOM iterate, not the minimiser
-#   zeroResidual  : a column with b - A x0 = 0 (b = 0, or x0 already exact) is normalised by 0/0: NaN solution
-#   breakdownNotMasked : (floating point only, see c15.py) garbage Arnoldi columns after a breakdown
-#   maskExact     : the padding mask `largest_vals < 10*tol*overall_max` is a magnitude heuristic: with a large tol (1e-3: 1 %)
-#                   it also hits rows of executed steps whose entries are small, forces that coefficient to 0 and regularises
-#                   the row — the iterate is then neither the minimiser nor the Galerkin iterate (tol >= 0.1 masks everything)
-PROVISIONAL_KNOWN = {"keepLastRow", "zeroResidual", "breakdownNotMasked", "maskExact"}
-# --------------------------------------------------------------------------------------------
+# Clauses of modelled defects are taken from /verif/known_findings.json (`common.known_clauses`); nothing is provisional.
+# Recorded for C13: maskExact, zeroResidual, breakdownNotMasked (floating point only), krylov-complex-operand-real-operator.
+# Former defect (b) (`keepLastRow`) is repaired in /repo (commit 9a9bf4d) and `GMRES.dropLastRow = false` mirrors it; the clause
+# name is still produced by the oracle so that a regression shows up as a VIOLATION.
+PROVISIONAL_KNOWN = set()
+MIXED = K.MIXED
 
 WHAT = {
+    MIXED: "arnoldi allocates its buffers with dtype=A.dtype: a complex right-hand side on a real operator loses the imaginary part of "
+           "its residual; gmres returns a wrong solution (or raises)",
     "keepLastRow": "gmres_fwd drops the last row of the Hessenberg matrix (`H[:, :-1, :]`): it solves the square system "
                    "H_m y = beta e1 (Galerkin/FOM iterate) instead of min |beta e1 - H~_m y|: the residual is not minimal, can exceed "
                    "the initial residual and grow with m; a singular H_m raises LinAlgError",
@@ -121,6 +118,12 @@ def stream(ctx, g):
                 out.append(make_case(g, n, cls, cplx, M, tols[int(g.integers(len(tols)))], kinds, x0, single))
         for n in [3, 5, 8]:
             out.append(make_case(g, n, "nonsym", bool(g.integers(2)), n, 1e-7, ["generic", "generic"], "zero", False, stream="S", special="zero-column"))
+    for n in [2, 4, 6]:       # real operator, complex right-hand side (dtype promotion)
+        c = make_case(g, n, "nonsym", True, n, 1e-7, ["generic"], "zero", True, stream="D")
+        c["A"] = K.tojson(K.fromjson(c["A"], True).real.astype(complex))
+        c["B"] = K.tojson(K.fromjson(c["B"], True) * (1 + 0.5j))      # keep a genuinely complex right-hand side
+        c["mixed"] = True
+        out.append(c)
     return out + special_cases()
 
 
@@ -130,6 +133,8 @@ def eval_real(case, M=None):
     from cola.linalg.inverse.gmres import gmres
     cplx = case["complex"]
     A = K.fromjson(case["A"], cplx)
+    if case.get("mixed"):
+        A = np.ascontiguousarray(A.real)
     B = K.fromjson(case["B"], cplx)      # (k, n)
     X0 = K.fromjson(case["X0"], cplx)
     cnt = {"calls": 0, "cols": 0}
@@ -159,6 +164,8 @@ def real_arnoldi(case):
     from cola.linalg.decompositions.arnoldi import arnoldi
     cplx = case["complex"]
     A = K.fromjson(case["A"], cplx)
+    if case.get("mixed"):
+        A = np.ascontiguousarray(A.real)
     B = K.fromjson(case["B"], cplx)
     X0 = K.fromjson(case["X0"], cplx)
     R0 = (B - X0 @ A.T)
@@ -246,6 +253,7 @@ def decode_model(ans, cplx):
     m = K.decode_model(ans, cplx)
     m["x"] = K.dec(ans["soln"], cplx)
     m["products"] = ans["products"]
+    m["drop"] = ans.get("dropLastRow")
     return m
 
 
@@ -269,6 +277,11 @@ def compare_real_model(case, real, model):
         return [f"real={real.get('exception')} model={model.get('error')}"]
     mism = []
     if real["iterations"] != model["iterations"]:
+        A, an = K.norms(case)
+        noise = K.NOISE_REL * an
+        st = min(real["iterations"], model["iterations"]) - 1
+        if st >= 1 and all(np.all(np.isfinite(model["H"][c])) and model["H"][c][st, st - 1].real <= noise for c in range(model["H"].shape[0])):
+            return []       # stop decided by `noise > tol*noise` (breakdown in exact arithmetic): not determined by the model
         return [f"iterations real={real['iterations']} model={model['iterations']}"]
     k = real["x"].shape[0]
     if real["products_cols"] != k * model["products"]:
@@ -400,6 +413,12 @@ class Engine(K.Engine):
         ctx = self.ctx
         mism = compare_real_model(case, real, model)
         fails = spec_check(case, real)
+        if case.get("mixed") and (mism or fails):
+            # real operator, complex right-hand side: outside the one-scalar-type Lean model; mechanism confirmed on the real code
+            Hreal, _ = real_arnoldi(case)
+            if Hreal is not None and not np.iscomplexobj(Hreal) and np.abs(K.fromjson(case["B"], True).imag).max() > 0:
+                mism = []
+                fails = [(f[0], MIXED, f[2]) for f in fails] or [("iterate=minimiser", MIXED, "Arnoldi buffers are real for a complex residual")]
         if mism:
             self.dist["outcomes"]["real!=model"] += 1
             hard = [f for f in fails if f[1] is None]
@@ -463,6 +482,8 @@ class Engine(K.Engine):
             model = decode_model(answers.get(i, {"error": "no answer from the Lean driver"}), c["complex"])
             self.account(c, real)
             self.judge(c, real, model)
+            sw = self.dist["model_switch_dropLastRow"]
+            sw[str(model.get("drop"))] = sw.get(str(model.get("drop")), 0) + 1
 
 
 def run(ctx):
@@ -502,6 +523,7 @@ def run(ctx):
         "'at most m products with the operator per column' is read as: at most min(m, n) Krylov products plus the one product that forms "
         "the initial residual b - A x0 (the code forms A @ x0 even for the default x0 = 0): the literal count is min(m, n) + 1",
         "preconditioner P, use_householder, use_triangular are outside the model (defaults only)",
-        "PROVISIONAL_KNOWN clauses %s are treated as known findings pending the maintainer's decision" % sorted(PROVISIONAL_KNOWN)])
+        "mixed dtypes (real operator, complex right-hand side) are outside the Lean model (one scalar type): the truncation mechanism "
+        "is confirmed on the real code by the harness (clause %s)" % MIXED])
     print(json.dumps({"outcomes": cov["outcomes"], "distinct_nontrivial": cov["distinct_nontrivial"], "clauses": cov["distributions"]["clauses"],
                       "gate": (gate or {}).get("obligations"), "wall_s": round(ctx.wall(), 1)}))
